@@ -106,3 +106,17 @@ Definition mismatches_backup (cases : list (bool * pos * list (N * N * N * N) * 
       if nl_eqb2 (sync_obs ex lp fs sp h) want then go (S i) rest else i :: go (S i) rest
     end in
   go 0%nat cases.
+
+(* a file offered to the service directly: [accepted; service position afterwards] *)
+Definition svc_obs (spos : pos) (f : N * N * N * N) : list N :=
+  match svc_write {| s_pos := spos; s_files := [] |} f with
+  | Some s' => [1; fst (s_pos s'); snd (s_pos s')]
+  | None => [0; fst spos; snd spos]
+  end.
+Definition mismatches_svc (cases : list (pos * (N * N * N * N) * list N)) : list nat :=
+  let fix go (i : nat) (cs : list (pos * (N * N * N * N) * list N)) : list nat :=
+    match cs with
+    | [] => []
+    | (sp, f, want) :: rest => if nl_eqb2 (svc_obs sp f) want then go (S i) rest else i :: go (S i) rest
+    end in
+  go 0%nat cases.
